@@ -7,7 +7,7 @@ SPEC = {
         {"pkg": "internal/corerad", "test": "TestVerifC17", "newgo": True, "timeout": 900, "tiers": ["thorough"],
          "race": True, "env": {"VERIF_C17_RACE": "1"}},
         # real parallelism: several scrapes of one Metrics value at once (and the other side-by-side parties)
-        {"pkg": "internal/corerad", "test": "TestVerifParallel", "newgo": True, "timeout": 600, "arch386": []},
+        {"pkg": "internal/corerad", "test": "TestVerifParallel", "newgo": True, "timeout": 600, "arch386": [], "env": {"VERIF_PAR": "scrapes"}},
     ],
     "known_classes": {1: "duplicate_series_labels"},
     "rule": "generated accepted TOML configurations (1-3 interface stanzas incl. names groups; advertise / monitor / idle; "
